@@ -169,7 +169,7 @@ def run(ck):
         m = xr.RealRFM(kernel=kern, iters=2, bandwidth=2.0, exponent=[1.0, 1.2][i % 2], device='cpu', diag=bool(i % 2), verbose=False, tuning_metric='mse',
                        bandwidth_mode=bwm, **extra)
         with xr.quiet():
-            m.fit((T(X), T(Y)), (T(X[:10]), T(Y[:10])), iters=2, reg=1e-2, verbose=False)
+            m.fit((T(X), T(Y)), (T(X[:10]), T(Y[:10])), iters=2, reg=1e-2, verbose=False, center_grads=bool(i % 3 == 1))       # centring is an option of the AGOP, not of the gradient API
             Q = T(rng.standard_normal((4, d)))
             J = m.get_grads(Q).double().numpy()           # (n_q, n_out, d)
             h = 1e-6
